@@ -111,7 +111,7 @@ fn case_strategy(_tier: Tier) -> BoxedStrategy<TlCase> {
             abandon_after: if frozen_for.is_some() { None } else { abandon_after },
             frozen_for,
         });
-    (
+    let general = (
         timeout_strategy(),
         any::<bool>(),
         any::<bool>(),
@@ -136,8 +136,54 @@ fn case_strategy(_tier: Tier) -> BoxedStrategy<TlCase> {
             listeners,
             calls,
             order,
-        })
-        .boxed()
+        });
+    // a crowd: 66-90 slow calls within a few ms (their inner calls outlive the timeout by far or
+    // never end) and a quick one after them, in either mode
+    let crowd = (
+        any::<bool>(),
+        66usize..=90,
+        prop_oneof![Just(10u64), 5u64..=30],
+        prop_oneof![1 => Just(LatRel::Never), 2 => (50u64..=100).prop_map(LatRel::Above)],
+        0u64..=3,
+        prop::collection::vec(any::<u8>(), 0..=8),
+    )
+        .prop_map(|(cancel, n, timeout, slow, spread, order)| {
+            let mut calls: Vec<TlCall> = (0..n)
+                .map(|i| TlCall {
+                    at: if spread == 0 { 0 } else { i as u64 % (spread + 1) },
+                    timeout,
+                    lat: slow.clone(),
+                    ok: true,
+                    busy: false,
+                    ready_before: 0,
+                    abandon_after: None,
+                    frozen_for: None,
+                })
+                .collect();
+            calls.push(TlCall {
+                at: timeout + 5,
+                timeout,
+                lat: LatRel::Below(1),
+                ok: true,
+                busy: false,
+                ready_before: 0,
+                abandon_after: None,
+                frozen_for: None,
+            });
+            TlCase {
+                timeout,
+                per_request: false,
+                cancel,
+                drop_service: false,
+                huge_timeout: false,
+                cancel_first: false,
+                hold: None,
+                listeners: false,
+                calls,
+                order,
+            }
+        });
+    prop_oneof![150 => general, 1 => crowd].boxed()
 }
 
 fn map_outcome(r: Result<Resp, TimeLimiterError<SErr>>) -> Outcome {
@@ -586,6 +632,9 @@ async fn interp(case: &TlCase) -> Verdict {
     }
     if case.listeners {
         classes.push("event_listeners_registered");
+    }
+    if n > 60 {
+        classes.push("more_than_sixty_calls_at_once");
     }
     if any_frozen {
         classes.push("caller_busy_elsewhere_after_first_poll");
